@@ -425,6 +425,10 @@ def run_cases(exe, lines, shards=NPROC):
     surfaces as a disagreement / failure wherever the answer is compared, instead of vanishing."""
     if not lines:
         return {}
+    ids = [l.split('\t', 1)[0] for l in lines]
+    if len(set(ids)) != len(ids):
+        dup = sorted(i for i in set(ids) if ids.count(i) > 1)[:5]
+        raise RuntimeError('run_cases: case ids repeated within one batch (answers are keyed by id): %s' % dup)
     n = max(1, min(shards, len(lines) // 50 + 1))
     parts = [lines[i::n] for i in range(n)]
     res = {}
